@@ -277,7 +277,7 @@ def streams_for(prop, seed, tier, boost=1):
         add('high-index', genmod.high_index_limit_stream())
         add('dec-extra', genmod.dec_extra_catalogue(G('dx')))
         add('hdec-in-block', ['dnew 1'] + ['ddec 1 1 ' + genmod.hx(bytes([0x00, 0x80 | (len(o.split()[1]) // 2)]) + bytes.fromhex(o.split()[1]) + b'\x00')
-                                          for o in genmod.huff_transition_catalogue() if o.split()[1] != '-' and len(o.split()[1]) // 2 < 127][::(1 if (T or boost > 1) else 7)])
+                                          for o in genmod.huff_transition_catalogue() if o.split()[1] != '-' and len(o.split()[1]) // 2 < 127])
         if T:
             add('dec-small', G('x').dec_exhaustive_small())
     elif prop in ('C07', 'C08'):
